@@ -7,6 +7,31 @@ ROOT = os.path.dirname(os.path.abspath(__file__))
 
 # id -> (level category, technique, level text, level note, design ref)
 CHECKS = {
+ "C01": ("fault_enumeration",
+   "crash-image replay: directory copied at every durable-step hook + every WAL torn-tail cut, reopened and compared with a last-write-wins model; consecutive crash cycles; injected snapshot failure",
+   "Runs seeded histories on a real tsdb.Store; hooks in the WAL, snapshot commit, FileStore.replace, tombstone commit and delete path copy the store directory at each durable step (process-kill semantics) and at each WAL sync the family of torn tails; every image is reopened with a fresh Store and every acknowledged point must be read back (the one in-flight op may go either way). Recovered images continue the history (depth 2 quick / 3 thorough); hooks firing during recovery give crash-during-recovery images. Held on the enumerated crash points of the sampled histories.",
+   "Crash model is process kill + WAL-tail truncation (as the property states); loss/reordering of un-fsynced page cache of other files and removed fsync calls are invisible. One sequential client. Model = harness-side last-write-wins map.",
+   "DESIGN.md section 3 C01"),
+ "C02": ("exploration",
+   "reference-model comparison after every operation of seeded histories, both read APIs, both directions, sub-ranges; reads inside a parked snapshot window",
+   "Seeded histories (writes of all five types incl. duplicates/extremes/type conflicts, snapshots, 8 compaction kinds with 1..1000 points per block, deletes, drops, reopen) against a real tsdb.Store; after every op all model keys are read through Shard.CreateIterator and CreateCursorIterator, ascending and descending, full range and boundary-aligned sub-ranges, and compared with a last-write-wins model; partial-write reporting and field-type uniqueness are judged too. Reads also run while a cache snapshot is parked between file write and install.",
+   "Sampled histories; in-batch duplicate timestamps accept either value; type conflicts only against fields holding data; background compaction off (explicit planner/compactor calls instead).",
+   "DESIGN.md section 3 C02"),
+ "C06": ("exploration",
+   "replicated execution of generated command logs on 3+1 FSM instances (one snapshot/restored), canonical-form equality and invariant assertions after every entry",
+   "Generated metadata command logs (every FSM command type except those needing a live raft; small argument pools so repeats/conflicts/invalid references are common) are applied entry by entry to three independent FSM replicas plus one that is snapshotted and restored at seeded points; after every entry canonical forms must agree and the invariants of the property (disjoint live ranges, id uniqueness/no reuse, owner placement of new groups, no removed-node owners, rejected command changes nothing) are asserted. Go's randomised map iteration makes order leaks visible as divergence.",
+   "Sampled logs; DeletedAt (wall clock) reduced to 'is deleted'; deleted groups not compared across replicas; RemovePeer/legacy CreateNode need a live raft and are exercised by C07 instead.",
+   "DESIGN.md section 3 C06"),
+ "C08": ("exploration",
+   "oracle over real PointsWriter.MapShards / WritePointsPrivileged against a real meta service and two meta clients: conservation, independent designation + FNV-64a, independence probes, clock-bracketed retention",
+   "Generated metadata histories (lazy/pre-created/truncated/deleted/odd-sized groups, altered durations, 1-4 nodes) on a real single-node meta service with two clients; generated batches are mapped by the real PointsWriter and judged: multiset conservation, each point in the unique live group the metadata designates and in the shard an independent FNV-64a of the canonical key selects, same shard when mapped alone / in other batches / with permuted tags / by the second client, retention drop judged with clock brackets, end-to-end delivery to owners.",
+   "Sampled; authoritative metadata observed through client snapshots; retention boundary judged only outside the measured clock bracket.",
+   "DESIGN.md section 3 C08"),
+ "C12": ("exploration",
+   "constructive generator with independent line-protocol writer + mutational hostile inputs, round-trip and request-isolation oracles, under checkptr in a supervised child",
+   "Abstract points rendered by an independent writer (all escapes, numeric forms, precisions, unsorted tags) must parse to exactly that point; mutated/hostile text and binary inputs must not crash (checkptr build, supervised child) and accepted points must round-trip through String() and MarshalBinary bit-exactly; multi-line requests with a bad line must yield exactly the points of their good lines; Key/HashID independent of tag order; duplicate tags rejected.",
+   "Sampled byte strings (grammar-aware, not coverage-guided); names with a backslash before a special character are outside the claimed-valid domain.",
+   "DESIGN.md section 3 C12"),
  "C13": ("exploration",
    "round-trip oracle over generated sequences + every-offset truncation of WAL segments, under checkptr",
    "Runs the real block encoders/decoders (iterator and batch families, cross-wise) on generated sequences aimed at scheme boundaries and compares bit for bit; writes real WAL segments and reads every byte-offset truncation through WALSegmentReader and CacheLoader against the 'complete frames before the cut' oracle. Held on the sampled inputs only; the input space is unbounded.",
@@ -57,7 +82,9 @@ def main():
             "add_only": True,
         },
         "engines": [
-            {"name": "ev", "path": "harness/internal/ev", "serves_properties": sorted(CHECKS), "kind_free_text": "evidence writer, seeds, floors, known-findings classification, child-process supervision (a crash of the target is an observation)"},
+            {"name": "ev", "path": "harness/internal/ev", "serves_properties": sorted(CHECKS), "kind_free_text": "evidence writer, seeds, floors, known-findings classification, child-process supervision (a crash of the target is an observation), watchdog with deadlock evidence from two goroutine dumps"},
+            {"name": "shardmodel", "path": "harness/internal/shardmodel", "serves_properties": [p for p in ["C01", "C02", "C10", "C18", "C19"] if p in CHECKS], "kind_free_text": "last-write-wins reference model of a shard + driver of a real tsdb.Store (writes, snapshots, planner-driven compactions, deletes, reopen, both read APIs) + seeded history generator"},
+            {"name": "crashimg", "path": "harness/internal/crashimg", "serves_properties": [p for p in ["C01", "C10"] if p in CHECKS], "kind_free_text": "sparse-aware crash image copy, torn tails"},
         ],
         "checks": checks,
         "not_applicable": na,
